@@ -11,9 +11,11 @@ def comps(cs):
 
 
 def gen_case(rng):
-    rules = []
+    rules, prios = [], []
     for _ in range(rng.randint(0, 5)):
-        rules.append((rng.randint(0, 5),) if rng.random() < 0.5 else rng.choice(BUNDLES))
+        g = (rng.randint(0, 5),) if rng.random() < 0.5 else rng.choice(BUNDLES)
+        rules.append(g)
+        prios.append(rng.choice([0, 1, 2, 3, 5, 8, 16, 100]) if rng.random() < 0.25 else None)      # an explicit priority (unrelated to the number of components)
     world = []
     for i in range(rng.randint(0, 4)):
         ks = rng.sample(range(6), rng.randint(0, 5))
@@ -22,12 +24,12 @@ def gen_case(rng):
     for i in rng.sample(range(1, 7), rng.randint(0, 3)):
         ks = rng.sample(range(6), rng.randint(0, 3)) if rng.random() < 0.85 else [rng.randint(0, 5) for _ in range(rng.randint(0, 4))]
         scene.append((i, [(k, rng.randint(100, 150)) for k in ks]))
-    return rules, world, scene
+    return rules, world, scene, prios
 
 
 def line_of(case):
-    rules, world, scene = case
-    r = ";".join("+".join(map(str, g)) for g in rules) or "-"
+    rules, world, scene, prios = case
+    r = ";".join("+".join(map(str, g)) + ("@%d" % p if p is not None else "") for g, p in zip(rules, prios)) or "-"
     w = ";".join("%d:%d:%s" % (i, int(m), comps(cs)) for i, m, cs in world) or "-"
     s = ";".join("%d:%s" % (i, comps(cs)) for i, cs in scene) or "-"
     return "scene %s %s %s" % (r, w, s)
@@ -47,7 +49,7 @@ def parse_answer(a):
 
 
 def oracle(case, a):
-    rules, world, scene = case
+    rules, world, scene = case[:3]
     if a in ("PANIC", "<missing>") or a.startswith("BAD") or a.startswith("UNSUPPORTED"):
         return "export failed: %s" % a
     if "!stale-list" in a:
